@@ -172,6 +172,9 @@ impl Space {
 
             let mut r = 0;
             loop {
+                // Verification seam: one step of the ring search (progress accounting).
+                #[cfg(meshless_voro_verif)]
+                crate::verif::sched_point(crate::verif::SITE_KNN_RING);
                 if k == 0 {
                     // Nothing to do here
                     break;
